@@ -129,7 +129,8 @@ def governance_check(ctx, lines):
                 print(line)
                 ctx.notes.append(line[:600])
     # what the scenarios exercised (vacuity guard) and self-tests (each forged record must be rejected at its clause)
-    st = {"proposals": 0, "passed": 0, "failed": 0, "rejected_with_yes": 0, "votes_accepted": 0, "votes_by_non_entities": 0, "closings_with_override": 0}
+    st = {"proposals": 0, "passed": 0, "failed": 0, "rejected_with_yes": 0, "votes_accepted": 0, "votes_by_non_entities": 0, "closings_with_override": 0,
+          "upgrade_proposals_closed": 0, "upgrades_passed": 0, "cancellations_passed": 0, "blocks_with_pending_upgrade": 0}
     last = None
     closing_block = None      # (segment lines up to and including an end event in which a proposal with votes closes)
     seg = []
@@ -147,11 +148,15 @@ def governance_check(ctx, lines):
             e = json.loads(ln)
             ps = e["gov"]["proposals"]
             prev = {p["id"]: p for p in (last or [])}
+            st["blocks_with_pending_upgrade"] += bool(e["gov"].get("pending_upgrades"))
             for p in ps:
                 if p["state"] != "active" and prev.get(p["id"], {"state": "active"})["state"] == "active":
                     st["proposals"] += 1
                     st["passed"] += p["state"] == "passed"
                     st["failed"] += p["state"] == "failed"
+                    st["upgrade_proposals_closed"] += p["kind"] == "upgrade"
+                    st["upgrades_passed"] += p["kind"] == "upgrade" and p["state"] == "passed"
+                    st["cancellations_passed"] += p["kind"] == "cancel" and p["state"] == "passed"
                     st["rejected_with_yes"] += p["state"] == "rejected" and p["results"]["yes"] > 0
                     voters = {v[0] for v in p["votes"]}
                     vals = set(e["gov"]["vals"])
